@@ -65,6 +65,7 @@ impl Session {
                 fd = p[0];
             }
         }
+        let unlimited = wants_address_space(env);
         unsafe {
             cmd.pre_exec(move || {
                 if is_pty {
@@ -76,8 +77,7 @@ impl Session {
                 libc::signal(libc::SIGQUIT, libc::SIG_DFL);
                 libc::signal(libc::SIGHUP, libc::SIG_DFL);
                 libc::signal(libc::SIGPIPE, libc::SIG_DFL);
-                let lim = libc::rlimit { rlim_cur: 6 << 30, rlim_max: 6 << 30 };
-                libc::setrlimit(libc::RLIMIT_AS, &lim);
+                child_address_space(unlimited);
                 Ok(())
             });
         }
